@@ -339,6 +339,33 @@ type recvGossip struct {
 type recvSM struct {
 	seq uint64
 	v   tmeil.StateMachineRoundView
+
+	// entrance != nil marks the point at which the stand-in entered a round
+	// (the stand-in is one goroutine, like the real state machine, so the order
+	// of entrances and received views in this log is the order it saw them in).
+	entrance *smEntranceRec
+}
+
+type smEntranceRec struct {
+	h    uint64
+	r    uint32
+	resp tmeil.RoundEntranceResponse
+}
+
+type smEnterCmd struct {
+	re   tmeil.StateMachineRoundEntrance
+	done chan smEnterResult
+
+	// drain > 0: instead of entering a round, force that many kernel loop
+	// iterations while this goroutine is parked receiving on the view channel,
+	// and report how many views arrived.
+	drain     int
+	drainDone chan int
+}
+
+type smEnterResult struct {
+	resp tmeil.RoundEntranceResponse
+	ok   bool
 }
 
 type node struct {
@@ -360,6 +387,9 @@ type node struct {
 
 	gossipOut  chan tmelink.NetworkViewUpdate
 	smViewOut  chan tmeil.StateMachineRoundView
+	smCmds     chan smEnterCmd
+	// parkReq asks a reader goroutine to stop reading until the channel it receives is closed
+	parkReq chan chan struct{}
 	smEntrance chan tmeil.StateMachineRoundEntrance
 	replayIn   chan tmelink.ReplayedHeaderRequest
 	lagOut     chan tmelink.LagState
@@ -443,8 +473,17 @@ func (n *node) start() (errKey string, errMsg string) {
 	n.wd = wd
 	n.ctx = wctx
 
-	n.gossipOut = make(chan tmelink.NetworkViewUpdate)
+	// Gossip channel: one slot of buffering, so the kernel can hand over an update
+	// whenever the slot is free, whether or not the reader goroutine happens to be
+	// scheduled, which is what makes quiescence detectable without sleeping (see
+	// c11quiesce). A reader that leaves the slot full is a stalled reader.
+	// State-machine channel: unbuffered as in the engine (the real state machine
+	// does not read views while it waits for an entrance response, and a buffered
+	// slot would hand it views from before the entrance).
+	n.gossipOut = make(chan tmelink.NetworkViewUpdate, 1)
 	n.smViewOut = make(chan tmeil.StateMachineRoundView)
+	n.parkReq = make(chan chan struct{})
+	n.smCmds = make(chan smEnterCmd)
 	n.smEntrance = make(chan tmeil.StateMachineRoundEntrance, 1)
 	n.replayIn = make(chan tmelink.ReplayedHeaderRequest)
 	n.lagOut = make(chan tmelink.LagState)
@@ -530,41 +569,128 @@ func (n *node) consumeGossip(ctx context.Context, ch <-chan tmelink.NetworkViewU
 			select {
 			case <-ctx.Done():
 				return
+			case resume := <-n.parkReq:
+				select {
+				case <-resume:
+				case <-ctx.Done():
+					return
+				}
 			case <-time.After(200 * time.Microsecond):
-				continue
 			}
+			continue
 		}
 		select {
 		case <-ctx.Done():
 			return
+		case resume := <-n.parkReq:
+			select {
+			case <-resume:
+			case <-ctx.Done():
+				return
+			}
 		case u := <-ch:
-			s := n.seq.Add(1)
-			n.rmu.Lock()
-			n.gossipLog = append(n.gossipLog, recvGossip{seq: s, u: u})
-			n.rmu.Unlock()
+			n.recordGossip(u)
 		}
 	}
 }
 
+func (n *node) recordGossip(u tmelink.NetworkViewUpdate) {
+	s := n.seq.Add(1)
+	n.rmu.Lock()
+	n.gossipLog = append(n.gossipLog, recvGossip{seq: s, u: u})
+	n.rmu.Unlock()
+}
+
+func (n *node) recordSMView(v tmeil.StateMachineRoundView) {
+	s := n.seq.Add(1)
+	n.rmu.Lock()
+	n.smLog = append(n.smLog, recvSM{seq: s, v: v})
+	n.rmu.Unlock()
+}
+
+// parkReaders stops both reader goroutines (they acknowledge by accepting the
+// request) and returns the function that lets them continue.
+func (n *node) parkReaders() (resume func(), ok bool) {
+	ch := make(chan struct{})
+	for i := 0; i < 1; i++ {
+		select {
+		case n.parkReq <- ch:
+		case <-n.ctx.Done():
+			close(ch)
+			return func() {}, false
+		case <-time.After(callTimeout):
+			close(ch)
+			return func() {}, false
+		}
+	}
+	return func() { close(ch) }, true
+}
+
 func (n *node) consumeSM(ctx context.Context, ch <-chan tmeil.StateMachineRoundView) {
 	defer n.consumersDone.Done()
+	enter := func(cmd smEnterCmd) {
+		if cmd.drain > 0 {
+			got := 0
+			for i := 0; i < cmd.drain; i++ {
+				done := make(chan struct{})
+				go func() {
+					defer close(done)
+					var v tmconsensus.VersionedRoundView
+					cctx, cancel := n.callCtx()
+					defer cancel()
+					_ = n.m.VotingView(cctx, &v)
+				}()
+				// This goroutine parks in the select below before the goroutine just
+				// started gets to send its request, so when the kernel serves that
+				// request its send to this channel (if it has anything) is ready too.
+				select {
+				case v := <-ch:
+					n.recordSMView(v)
+					got++
+					<-done
+				case <-done:
+				case <-ctx.Done():
+					cmd.drainDone <- got
+					return
+				}
+			}
+			cmd.drainDone <- got
+			return
+		}
+		var res smEnterResult
+		select {
+		case n.smEntrance <- cmd.re:
+			select {
+			case res.resp = <-cmd.re.Response:
+				res.ok = true
+				s := n.seq.Add(1)
+				n.rmu.Lock()
+				n.smLog = append(n.smLog, recvSM{seq: s, entrance: &smEntranceRec{h: cmd.re.H, r: cmd.re.R, resp: res.resp}})
+				n.rmu.Unlock()
+			case <-ctx.Done():
+			}
+		case <-ctx.Done():
+		}
+		cmd.done <- res
+	}
 	for {
 		if n.smPaused.Load() {
 			select {
 			case <-ctx.Done():
 				return
+			case cmd := <-n.smCmds:
+				enter(cmd)
 			case <-time.After(200 * time.Microsecond):
-				continue
 			}
+			continue
 		}
 		select {
 		case <-ctx.Done():
 			return
+		case cmd := <-n.smCmds:
+			enter(cmd)
 		case v := <-ch:
-			s := n.seq.Add(1)
-			n.rmu.Lock()
-			n.smLog = append(n.smLog, recvSM{seq: s, v: v})
-			n.rmu.Unlock()
+			n.recordSMView(v)
 		}
 	}
 }
@@ -787,9 +913,8 @@ func (n *node) smEnter(h uint64, r uint32, key *vkey) (resp tmeil.RoundEntranceR
 	}
 	re := tmeil.StateMachineRoundEntrance{
 		H: h, R: r,
-		Actions:         make(chan tmeil.StateMachineRoundAction, 3),
-		HeightCommitted: nil,
-		Response:        make(chan tmeil.RoundEntranceResponse, 1),
+		Actions:  make(chan tmeil.StateMachineRoundAction, 3),
+		Response: make(chan tmeil.RoundEntranceResponse, 1),
 	}
 	hc := make(chan struct{})
 	re.HeightCommitted = hc
@@ -798,19 +923,24 @@ func (n *node) smEnter(h uint64, r uint32, key *vkey) (resp tmeil.RoundEntranceR
 	}
 	ctx, cancel := n.callCtx()
 	defer cancel()
+	cmd := smEnterCmd{re: re, done: make(chan smEnterResult, 1)}
 	select {
-	case n.smEntrance <- re:
+	case n.smCmds <- cmd:
 	case <-ctx.Done():
 		return resp, false
 	}
+	var res smEnterResult
 	select {
-	case resp = <-re.Response:
+	case res = <-cmd.done:
 	case <-ctx.Done():
+		return resp, false
+	}
+	if !res.ok {
 		return resp, false
 	}
 	n.smActions = re.Actions
 	n.smH, n.smR, n.smKey, n.smHC = h, r, key, hc
-	return resp, true
+	return res.resp, true
 }
 
 // smAct sends a state machine action on the current round's action channel.
@@ -891,4 +1021,23 @@ func (n *node) checkFeedback(fb gexchange.Feedback, method, res string) {
 // definedResult reports whether a stringer rendering names a declared constant.
 func definedResult(s string) bool {
 	return s != "" && !strings.Contains(s, "(")
+}
+
+// smDrain asks the state-machine stand-in goroutine to stay parked on its view
+// channel across k forced kernel iterations; it returns the number of views received.
+func (n *node) smDrain(k int) (int, bool) {
+	cmd := smEnterCmd{drain: k, drainDone: make(chan int, 1)}
+	ctx, cancel := n.callCtx()
+	defer cancel()
+	select {
+	case n.smCmds <- cmd:
+	case <-ctx.Done():
+		return 0, false
+	}
+	select {
+	case got := <-cmd.drainDone:
+		return got, true
+	case <-ctx.Done():
+		return 0, false
+	}
 }
